@@ -54,7 +54,7 @@ pub open spec fn pt_ok(p: GPos) -> bool {
 """
 
 WITNESSES = [
-    {"match": r"poslits\\.", "kind": "lsp-fix-ranges", "props": ["C23"], "input": common.LSP_FIX_PROGRAMS, "expect": {}, "timeout": 300,
+    {"match": r"poslits\.", "kind": "lsp-fix-ranges", "props": ["C23"], "input": common.LSP_FIX_PROGRAMS, "expect": {}, "timeout": 300,
      "note": "quick-fix ranges (built from the lints' position literals) against check --fix"},
 ]
 
